@@ -13,6 +13,7 @@ mod rledec;
 mod rng;
 #[cfg(feature = "internals")]
 mod sortkey;
+mod sched;
 mod sqlrun;
 #[cfg(feature = "internals")]
 mod tok;
@@ -26,6 +27,8 @@ fn main() {
     let rest = &args[2..];
     let rc = match args[1].as_str() {
         "sql" => sqlrun::main(rest),
+        "sched" => sched::main(rest),
+        "cancel" => sched::cancel_main(rest),
         #[cfg(feature = "internals")]
         "casttable" => casttable::main(rest),
         #[cfg(feature = "internals")]
